@@ -440,5 +440,192 @@ theorem runOps_goodH {cfg : Cfg} {w0 : World} (hcfg : CfgOK w0) (hfresh : w0.vit
 
 theorem goodH_init (cfg : Cfg) (w0 : World) (t : Tape) : GoodH cfg w0 { w := w0, tape := t } := rfl
 
+/-! ## one call of the model passes the judge -/
+
+theorem obsOuts_heal (w : World) (a : Aid) (os : Bool) (t : Tape) :
+    obsOuts (heal w) a [.centered os] t = obsOuts w a [.centered os] t := by
+  simp only [obsOuts, Observers.getObs, getObsCentered_heal]
+
+theorem obsInSpace_heal (w : World) (a : Aid) (ks : List Observers.Kind) (o : List (String × Observers.Obs)) :
+    obsInSpace (heal w) a ks o = obsInSpace w a ks o := by
+  unfold obsInSpace
+  simp only [declared_heal]
+  rfl
+
+/-- the observation of the model lies in the declared space with exactly the declared keys, in a `WInvWeak` world all of
+whose stored positions are grid cells (transport of `Ex.getObs_obsInSpace` through `heal`) -/
+theorem getObs_obsInSpace_weak {cfg : Cfg} {s s' : St} {a : Aid} {o : List (String × Observers.Obs)}
+    (hW : s.w.WInvWeak = true) (hP : AllInGrid s.w) (henc : ∀ b < s.w.n, 0 < s.w.encOf b)
+    (hammo : ∀ b < s.w.n, 0 ≤ (s.w.cfgOf b).initAmmo) (h : Ex.getObs cfg.toEx s a = .ok (o, s')) :
+    obsInSpace s.w a [.centered cfg.observeSelf] o = true := by
+  have h' : ∃ s'', Ex.getObs cfg.toEx { s with w := heal s.w } a = .ok (o, s'') := by
+    unfold Ex.getObs at h ⊢
+    split at h
+    · cases h
+    · rename_i r hr
+      simp only [hr]
+      simp only [Cfg.toEx] at h ⊢
+      split at h
+      · rename_i ha
+        have ha' : a < (heal s.w).n := ha
+        simp only [ha', if_true, obsOuts_heal]
+        split at h
+        · cases h
+        · rename_i outs t' hout
+          simp only [Except.ok.injEq, Prod.mk.injEq] at h
+          simp only [h.1]
+          exact ⟨_, rfl⟩
+      · cases h
+  obtain ⟨s'', h''⟩ := h'
+  have := Ex.getObs_obsInSpace (cfg := cfg.toEx) (s := { s with w := heal s.w }) (ks := [.centered cfg.observeSelf]) rfl
+    (heal_WInv hW) (fun b hb => by
+      show (heal s.w).inGrid ((heal s.w).stOf b).pos = true
+      rw [heal_pos]; exact hP b hb) henc hammo h''
+  rw [← obsInSpace_heal]; exact this
+
+theorem runOp_entry_state (cfg : Cfg) (s : St) (op : EOp) (h : (runOp cfg s op).1.res.isErr = false) :
+    (runOp cfg s op).1.w = (runOp cfg s op).2.w ∧ (runOp cfg s op).1.rewards = (runOp cfg s op).2.rewards := by
+  cases op with
+  | reset order tape =>
+    simp only [runOp] at h ⊢
+    split <;> simp_all [ERes.isErr]
+  | step acts tape =>
+    simp only [runOp] at h ⊢
+    split <;> simp_all [ERes.isErr]
+  | obs a tape =>
+    simp only [runOp] at h ⊢
+    split <;> simp_all [ERes.isErr]
+  | rew a =>
+    simp only [runOp] at h ⊢
+    split <;> simp_all [ERes.isErr]
+  | done a => exact ⟨rfl, rfl⟩
+  | allDone => exact ⟨rfl, rfl⟩
+
+/-- **one call of the model passes the judge** -/
+theorem judge1_model {cfg : Cfg} {w0 : World} (hW : WorldOK w0) (s : St) (op : EOp) (hop : OpOK cfg w0 op)
+    (hG : GoodH cfg w0 s) : judge1 cfg w0 ⟨s.w, s.rewards⟩ op (runOp cfg s op).1 = true := by
+  cases op with
+  | reset order tape =>
+    simp only [runOp]
+    cases h : Ex.reset cfg.toEx order { s with tape := tape } with
+    | error e => simp [judge1]
+    | ok s' =>
+      obtain ⟨hr, hI, hF, _⟩ := reset_goodH hW.cfgok hW.fresh hop (s := { s with tape := tape }) hG h
+      simp [judge1, hI, frameb_of_sframe hF, hr]
+  | step acts tape =>
+    simp only [runOp]
+    cases h : step cfg { s with tape := tape } acts with
+    | error e =>
+      simp only [judge1]
+      cases hr : s.rewards with
+      | none => rfl
+      | some r =>
+        simp only [Bool.not_eq_true']
+        cases hm : stepMustNotRaise cfg s.w r acts with
+        | false => rfl
+        | true =>
+          exfalso
+          obtain ⟨hP, hS⟩ := items_of_stepMustNotRaise hm
+          obtain ⟨p, hp, _⟩ := stepPS_ok_weak (cfg := cfg) (w0 := s.w) ⟨s.w, r, tape⟩ acts
+            ⟨hP.weak, hP.frame, hP.full⟩ hS
+          simp only [step, hr, hp] at h
+          cases h
+    | ok s' =>
+      obtain ⟨r, p, hr, hp, hs'⟩ := step_shape h
+      simp only at hr hp
+      have hk := stepPS_keylist hp
+      simp only at hk
+      unfold GoodH at hG
+      rw [hr] at hG
+      simp only at hG
+      have hpwp := stepPS_pwp (w0 := w0) (p := ⟨s.w, r, tape⟩) ⟨⟨hG.1, hG.2.1⟩, hG.2.2.2⟩ hp
+      subst hs'
+      simp [judge1, hpwp.1.1, frameb_of_sframe hpwp.1.2, hr, hk]
+  | obs a tape =>
+    simp only [runOp]
+    cases h : Ex.getObs cfg.toEx { s with tape := tape } a with
+    | error e => simp [judge1]
+    | ok r =>
+      obtain ⟨o, s'⟩ := r
+      obtain ⟨ks, hks, hsome⟩ := Ex.getObs_observers h
+      obtain ⟨t', rfl⟩ := Ex.getObs_shape h
+      obtain ⟨r0, hr0⟩ := Option.isSome_iff_exists.mp hsome
+      simp only at hr0
+      unfold GoodH at hG
+      rw [hr0] at hG
+      simp only at hG
+      obtain ⟨hWk, hF, _, hP⟩ := hG
+      have hn : s.w.n = w0.n := sframe_n hF
+      have hos := getObs_obsInSpace_weak (s := { s with tape := tape }) hWk hP
+        (fun b hb => by rw [sframe_encOf hF]; exact hW.enc b (by rw [← hn]; exact hb))
+        (fun b hb => by rw [sframe_cfgOf hF]; exact hW.ammo b (by rw [← hn]; exact hb)) h
+      simp only at hos
+      simp [judge1, hos]
+  | rew a =>
+    simp only [runOp]
+    cases h : Ex.getReward cfg.toEx s a with
+    | error e => simp [judge1]
+    | ok r =>
+      obtain ⟨x, s'⟩ := r
+      obtain ⟨r0, hr0, hv, rfl⟩ := Ex.getReward_shape h
+      simp only [judge1, hr0, beq_self_eq_true, Bool.true_and, beq_iff_eq]
+      simp only [rewardVal] at hv
+      cases hlk : r0.lookup a with
+      | none => rw [hlk] at hv; cases hv
+      | some y => rw [hlk] at hv; cases hv; rfl
+  | done a =>
+    simp only [runOp, getDone]
+    cases hr : s.rewards with
+    | none => simp [judge1, Ex.resOfBool]
+    | some r =>
+      simp only
+      cases hd : doneW cfg s.w a with
+      | error e => simp [judge1, Ex.resOfBool]
+      | ok b => simp [judge1, Ex.resOfBool, hd]
+  | allDone =>
+    simp only [runOp, getAllDone]
+    cases hr : s.rewards with
+    | none => simp [judge1, Ex.resOfBool]
+    | some r => simp [judge1, Ex.resOfBool]
+
+/-- **the model's own trace passes the judge**, from any good state -/
+theorem specFrom_model {cfg : Cfg} {w0 : World} (hW : WorldOK w0) :
+    ∀ (ops : List EOp) (s : St), (∀ op ∈ ops, OpOK cfg w0 op) → GoodH cfg w0 s →
+      specFrom cfg w0 ⟨s.w, s.rewards⟩ (zipOps ops (runOps cfg s ops).1) = true := by
+  intro ops
+  induction ops with
+  | nil => intro s _ _; rfl
+  | cons op ops ih =>
+    intro s hops hG
+    have hj := judge1_model hW s op (hops op List.mem_cons_self) hG
+    have hG' := runOp_goodH hW.cfgok hW.fresh s op (hops op List.mem_cons_self) hG
+    simp only [runOps]
+    cases he : (runOp cfg s op).1.res.isErr with
+    | true =>
+      simp only [if_true, zipOps, specFrom, hj, Bool.true_and]
+      cases hres : (runOp cfg s op).1.res <;> simp_all [ERes.isErr]
+    | false =>
+      simp only [Bool.false_eq_true, if_false, zipOps, specFrom, hj, Bool.true_and]
+      obtain ⟨e1, e2⟩ := runOp_entry_state cfg s op he
+      have := ih (runOp cfg s op).2 (fun o ho => hops o (List.mem_cons_of_mem _ ho)) hG'
+      rw [← e1, ← e2] at this
+      cases hres : (runOp cfg s op).1.res <;> simp_all [ERes.isErr]
+
+/-- `rtPre` is the conjunction of the hypotheses -/
+theorem rtPre_hyps {cfg : Cfg} {w0 : World} {ops : List EOp} (h : rtPre cfg w0 ops = true) :
+    WorldOK w0 ∧ ∀ op ∈ ops, OpOK cfg w0 op := by
+  simp only [rtPre, Bool.and_eq_true, List.all_eq_true, allAgents, List.mem_range, decide_eq_true_eq] at h
+  obtain ⟨⟨⟨⟨⟨h1, h2⟩, _⟩, h4⟩, _⟩, h6⟩ := h
+  refine ⟨⟨(cfgOKb_iff w0).mp h1, h2, fun b hb => (h4 b hb).1, fun b hb => (h4 b hb).2⟩, ?_⟩
+  intro op hop
+  have := h6 op hop
+  cases op with
+  | reset order tape => exact resetOK_of_b this
+  | step acts tape => trivial
+  | obs a tape => trivial
+  | rew a => trivial
+  | done a => trivial
+  | allDone => trivial
+
 end RT
 end Abmarl
